@@ -2,6 +2,7 @@ package vinv
 
 import (
 	"fmt"
+	"math"
 
 	"github.com/squadracorsepolito/acmelib"
 )
@@ -46,6 +47,18 @@ func CheckItems(where string, size int, items []LayoutItem) []string {
 	return bad
 }
 
+// PayloadBits is 8*sizeByte as a mathematical integer, saturated to the int range (positions are ints,
+// so every comparison with a position comes out as with the exact product).
+func PayloadBits(sizeByte int) int {
+	if sizeByte > math.MaxInt/8 {
+		return math.MaxInt
+	}
+	if sizeByte < math.MinInt/8 {
+		return math.MinInt
+	}
+	return sizeByte * 8
+}
+
 // CheckMessageLayout evaluates the C01 layout invariant on a message: the top-level signals are
 // a well-formed layout of SizeByte()*8 bits, the start bit of a top-level signal equals its
 // relative start position, and every multiplexer (at any depth) satisfies CheckMultiplexer.
@@ -67,7 +80,7 @@ func CheckMessageLayout(m *acmelib.Message) []string {
 		}
 	}
 	where := "message " + m.Name()
-	bad = append(bad, CheckItems(where, m.SizeByte()*8, items)...)
+	bad = append(bad, CheckItems(where, PayloadBits(m.SizeByte()), items)...)
 	visited := map[acmelib.EntityID]bool{}
 	for _, s := range sigs {
 		if s != nil && s.Kind() == acmelib.SignalKindMultiplexer {
